@@ -12,9 +12,9 @@ EXTENDS FLine, TLC, Json
 CONSTANTS Atoms, MaxLen, Cfgs, Junk, EmitOn,
           Extra,     \* bytes added to the free tail of every head (0 = quick, 1 = thorough)
           Sel        \* "rpl" | "req" | "tok" | "bad": which heads / atoms (cfg: Atoms <- AtomsSel)
-VARIABLES wire, vis, cont, obj, verdict, cfg, prev, hist
+VARIABLES wire, vis, cont, obj, verdict, cfg, prev, hist, na
 
-INSTANCE Stream WITH P_New <- FLine_New, P_Call <- FLine_Call, P_Obs <- FLine_Obs, P_Reset <- FLine_Reset
+INSTANCE Stream WITH MaxAtoms <- 99, P_New <- FLine_New, P_Call <- FLine_Call, P_Obs <- FLine_Obs, P_Reset <- FLine_Reset
 
 \* ---- atoms
 aSIP    == <<83,73,80,47,50,46,48>>        \* "SIP/2.0"
